@@ -1440,9 +1440,79 @@ func (self *Fork) expandForkPart(must bool,
 		return nil, err
 	}
 	if sp, ok := exp.(*syntax.SplitExp); ok {
+		// If the collection comes from a call which turns out to be
+		// disabled, it is null, whatever forks that call has.
+		value := sp.Value
+		if m, ok := value.(*syntax.MergeExp); ok {
+			// The merged output of a mapped call which is disabled as a
+			// whole, by a value which is the same for all of its forks.
+			if d, ok := m.Value.(*syntax.DisabledExp); ok &&
+				!forksOverCall(d.Disabled, m.GetCall()) {
+				value = d
+			}
+		}
+		for d, ok := value.(*syntax.DisabledExp); ok; d, ok = d.Value.(*syntax.DisabledExp) {
+			if forksOverCall(d.Disabled, split.Call) {
+				// Disabled per fork of this very call: handled per fork.
+				break
+			}
+			if ready, disabled, err := self.isDisabledSource(d); err != nil {
+				return nil, err
+			} else if !ready {
+				return nil, nil
+			} else if disabled {
+				return self.expandForkFromObj(i, part, split, nil, split,
+					result[len(result):])
+			}
+		}
 		return self.expandForkPartFromSource(must, i, part, split, sp.Source, result[len(result):])
 	} else {
 		return nil, nil
+	}
+}
+
+// forksOverCall returns true if the value of the expression depends on the
+// fork of the given call.
+func forksOverCall(exp syntax.Exp, call *syntax.CallStm) bool {
+	if exp == nil {
+		return false
+	}
+	if exp.HasSplit() {
+		return true
+	}
+	for _, ref := range exp.FindRefs() {
+		if _, ok := ref.Forks[call]; ok {
+			return true
+		}
+	}
+	return false
+}
+
+// isDisabledSource evaluates the condition of a conditionally disabled
+// expression for this fork, if the value it depends on is available yet.
+func (self *Fork) isDisabledSource(exp *syntax.DisabledExp) (ready, disabled bool, err error) {
+	ready, result, err := self.node.top.resolve(exp.Disabled,
+		self.node.top.types.Get(syntax.TypeId{Tname: syntax.KindBool}),
+		self.forkId, readSizeLimit)
+	if err != nil || !ready {
+		return ready, false, err
+	}
+	switch result := result.(type) {
+	case nil:
+		return true, true, nil
+	case *syntax.BoolExp:
+		return true, result.Value, nil
+	case *syntax.NullExp:
+		return true, true, nil
+	case json.RawMessage:
+		var b bool
+		if err := json.Unmarshal(result, &b); err != nil {
+			return true, false, err
+		}
+		return true, b, nil
+	default:
+		return true, false, fmt.Errorf(
+			"invalid type %T for disabled binding", result)
 	}
 }
 
